@@ -3,7 +3,7 @@
    string, a url, a number, a unicode range is read back by the corresponding
    consumer of the specification tokenizer (Css/RetokSpec.v) as the same value,
    leaving exactly the text that followed. *)
-From Verif Require Import Css.Ser Css.RetokSpec.
+From Verif Require Import Css.Ser Css.RetokSpec Css.SerWf.
 From Coq Require Import List NArith Bool Lia ZifyBool ZifyN ZifyNat.
 Import ListNotations.
 Open Scope N_scope.
@@ -131,14 +131,12 @@ Proof.
 Qed.
 
 (* ------------------------------------------------------------------ names *)
-Definition name_stop (k : list N) : bool :=
-  negb (match k with c :: _ => name_cp c | [] => false end) && negb (valid_escape k).
 
 Lemma consume_name_stop k f : name_stop k = true -> consume_name f k = ([], k).
 Proof.
   unfold name_stop. intros H. apply andb_true_iff in H as [H1 H2].
   destruct f; [reflexivity|]. destruct k as [|c k]; [reflexivity|].
-  cbn [consume_name]. apply negb_true_iff in H1, H2. rewrite H1, H2. reflexivity.
+  cbn [consume_name]. apply negb_true_iff in H1, H2. cbn [head_sat] in H1. rewrite H1, H2. reflexivity.
 Qed.
 
 Lemma esc_A rest : consume_escape (65 :: 32 :: rest) = (10, rest).
@@ -268,7 +266,6 @@ Proof.
   - unfold valid_escape. rewrite H2. reflexivity.
 Qed.
 
-Definition nonempty {A} (l : list A) : bool := match l with [] => false | _ => true end.
 
 Lemma consume_name_raw c f rest : name_cp c = true ->
   consume_name (S f) (c :: rest) = let '(v, k) := consume_name f rest in (c :: v, k).
@@ -410,7 +407,6 @@ Proof.
   rewrite E3. reflexivity.
 Qed.
 
-Definition no_nul (v : str) : bool := forallb (fun c => negb (c =? 0)) v.
 
 Theorem url_roundtrip v : forall k f,
   no_nul v = true -> (length v < f)%nat ->
@@ -424,3 +420,309 @@ Proof.
     rewrite <- app_assoc, url_char_step by lia.
     rewrite IH; auto. cbn in Hf. lia.
 Qed.
+
+(* ------------------------------------------------------------------ numbers *)
+
+Lemma span_app p a : forall b,
+  forallb p a = true -> head_sat p b = false -> span p (a ++ b) = (a, b).
+Proof.
+  induction a as [|c a IH]; intros b Ha Hb.
+  - cbn [app]. destruct b as [|d b]; [reflexivity|]. cbn in Hb |- *. rewrite Hb. reflexivity.
+  - cbn in Ha. apply andb_true_iff in Ha as [Hc Ha]. cbn [app span]. rewrite Hc, IH; auto.
+Qed.
+
+Lemma span_spec p s : forall a b,
+  span p s = (a, b) -> s = a ++ b /\ forallb p a = true /\ head_sat p b = false.
+Proof.
+  induction s as [|c s IH]; intros a b H.
+  - cbn in H. injection H as <- <-. auto.
+  - cbn [span] in H. destruct (p c) eqn:Hc.
+    + destruct (span p s) as [a' b'] eqn:E. injection H as <- <-.
+      destruct (IH a' b' eq_refl) as (-> & Ha & Hb). cbn. rewrite Hc. auto.
+    + injection H as <- <-. cbn. rewrite Hc. auto.
+Qed.
+
+Definition is_sg (sg : list N) : bool :=
+  match sg with [] => true | [c] => is_sign c | _ => false end.
+
+Lemma take_sign_app sg r :
+  is_sg sg = true -> (sg = [] -> head_sat is_sign r = false) -> take_sign (sg ++ r) = (sg, r).
+Proof.
+  intros Hs Hr. destruct sg as [|c [|d sg]]; try discriminate.
+  - cbn [app]. specialize (Hr eq_refl). destruct r as [|x r]; [reflexivity|]. cbn in Hr |- *. rewrite Hr. reflexivity.
+  - cbn in Hs |- *. rewrite Hs. reflexivity.
+Qed.
+
+Lemma take_sign_spec s sg r :
+  take_sign s = (sg, r) -> s = sg ++ r /\ is_sg sg = true /\ (sg = [] -> head_sat is_sign r = false).
+Proof.
+  destruct s as [|c s]; cbn.
+  - intros H. injection H as <- <-. auto.
+  - destruct (is_sign c) eqn:E; intros H; injection H as <- <-.
+    + cbn. rewrite E. repeat split. discriminate.
+    + cbn. rewrite E. auto.
+Qed.
+
+Definition digits (d : list N) : bool := forallb digit d.
+
+(* the grammar of a number representation: sign? digits* (. digits+)? ([eE] sign? digits+)? *)
+Definition frac_ok (frac : list N) : Prop :=
+  frac = [] \/ exists d2, frac = 46 :: d2 /\ d2 <> [] /\ digits d2 = true.
+Definition exp_ok (ex : list N) : Prop :=
+  ex = [] \/ exists e es d3, ex = e :: es ++ d3 /\ is_e e = true /\ is_sg es = true /\
+                             d3 <> [] /\ digits d3 = true.
+
+Record num_parts (sg d1 frac ex : list N) : Prop := {
+  np_sg : is_sg sg = true;
+  np_d1 : digits d1 = true;
+  np_frac : frac_ok frac;
+  np_ex : exp_ok ex;
+  np_ne : d1 ++ frac <> [] }.
+
+
+Lemma digits_head d x : digits d = true -> d <> [] -> head_sat digit (d ++ x) = true.
+Proof. destruct d as [|c d]; [contradiction|]. cbn. intros H _. apply andb_true_iff in H as [H _]. exact H. Qed.
+
+Lemma digit_not_sign c : digit c = true -> is_sign c = false.
+Proof. unf. lia. Qed.
+
+Lemma consume_number_parts sg d1 frac ex k :
+  num_parts sg d1 frac ex -> num_stop k = true ->
+  consume_number (sg ++ d1 ++ frac ++ ex ++ k) = Some (sg ++ d1 ++ frac ++ ex, k).
+Proof.
+  intros [Hsg Hd1 Hfrac Hex Hne] Hk.
+  unfold num_stop in Hk. apply andb_true_iff in Hk as [Hk Hk3]. apply andb_true_iff in Hk as [Hk1 Hk2].
+  apply negb_true_iff in Hk1, Hk2, Hk3.
+  (* head facts *)
+  assert (Hexk_nodigit : head_sat digit (ex ++ k) = false).
+  { destruct Hex as [->|(e & es & d3 & -> & He & _)]; [exact Hk1|]. cbn. unfold is_e in He. unf. lia. }
+  assert (Hfrac_nodigit : head_sat digit (frac ++ ex ++ k) = false).
+  { destruct Hfrac as [->|(d2 & -> & _)]; [exact Hexk_nodigit|reflexivity]. }
+  unfold consume_number.
+  (* sign *)
+  rewrite take_sign_app; auto.
+  2:{ intros _. destruct d1 as [|c d1].
+      - cbn [app]. destruct Hfrac as [->|(d2 & -> & _)]; [cbn in Hne; contradiction|reflexivity].
+      - cbn in Hd1 |- *. apply andb_true_iff in Hd1 as [Hc _]. apply digit_not_sign, Hc. }
+  (* integer part *)
+  rewrite span_app by assumption.
+  (* fraction *)
+  assert (Efrac : take_frac (frac ++ ex ++ k) = (frac, ex ++ k)).
+  { unfold take_frac. destruct Hfrac as [->|(d2 & -> & Hne2 & Hd2)].
+    - cbn [app]. destruct (head_is 46 (ex ++ k)) eqn:E46; [|reflexivity].
+      destruct Hex as [->|(e & es & d3 & -> & He & _)].
+      + cbn [app] in *. rewrite E46 in Hk2. cbn in Hk2.
+        destruct (tl k) as [|c t] eqn:Et; [cbn; reflexivity|].
+        cbn in Hk2. cbn [span]. rewrite Hk2. reflexivity.
+      + cbn in E46. unfold is_e in He. lia.
+    - cbn [app head_is tl]. change (46 =? 46) with true. cbn iota.
+      rewrite span_app by assumption. destruct d2; [contradiction|reflexivity]. }
+  rewrite Efrac.
+  destruct (d1 ++ frac) as [|m0 m] eqn:Em; [contradiction|]. rewrite <- Em.
+  (* exponent *)
+  assert (Eex : take_exp (ex ++ k) = (ex, k)).
+  { unfold take_exp. destruct Hex as [->|(e & es & d3 & -> & He & Hes & Hne3 & Hd3)].
+    - cbn [app]. destruct k as [|e r]; [reflexivity|].
+      destruct (is_e e) eqn:He; unfold is_e in He; rewrite He; [|reflexivity].
+      cbn in Hk3.
+      destruct (take_sign r) as [es r4] eqn:Ets. cbn in Hk3.
+      destruct r4 as [|c r4]; [reflexivity|]. cbn in Hk3. cbn [span]. rewrite Hk3. reflexivity.
+    - cbn [app]. unfold is_e in He. rewrite He. rewrite <- app_assoc.
+      rewrite take_sign_app; auto.
+      2:{ intros _.
+          destruct d3 as [|c d3]; [contradiction|]. cbn in Hd3 |- *.
+          apply andb_true_iff in Hd3 as [Hc _]. apply digit_not_sign, Hc. }
+      rewrite span_app by assumption. destruct d3; [contradiction|reflexivity]. }
+  rewrite Eex. rewrite <- !app_assoc. reflexivity.
+Qed.
+
+Lemma consume_number_inv s r k :
+  consume_number s = Some (r, k) ->
+  s = r ++ k /\ exists sg d1 frac ex, r = sg ++ d1 ++ frac ++ ex /\ num_parts sg d1 frac ex.
+Proof.
+  unfold consume_number.
+  destruct (take_sign s) as [sg r0] eqn:E0.
+  destruct (span digit r0) as [d1 r1] eqn:E1.
+  destruct (take_frac r1) as [frac r2] eqn:E2.
+  destruct (d1 ++ frac) as [|m0 m] eqn:Em; [discriminate|].
+  destruct (take_exp r2) as [ex r3] eqn:E3.
+  intros H. injection H as Hr Hk3. subst r3. subst r.
+  destruct (take_sign_spec _ _ _ E0) as (-> & Hsg & _).
+  destruct (span_spec _ _ _ _ E1) as (-> & Hd1 & _).
+  assert (Hfrac : r1 = frac ++ r2 /\ frac_ok frac).
+  { unfold take_frac in E2. destruct (head_is 46 r1) eqn:E46.
+    - destruct r1 as [|c t]; [discriminate|]. cbn in E46. apply N.eqb_eq in E46; subst c. cbn [tl] in E2.
+      destruct (span digit t) as [d2 r3'] eqn:E4. destruct (span_spec _ _ _ _ E4) as (-> & Hd2 & _).
+      destruct d2 as [|c d2]; injection E2 as <- <-.
+      + split; [reflexivity|left; reflexivity].
+      + split; [reflexivity|]. right. exists (c :: d2). repeat split; auto. discriminate.
+    - injection E2 as <- <-. split; [reflexivity|left; reflexivity]. }
+  destruct Hfrac as [-> Hfrac].
+  assert (Hex : r2 = ex ++ k /\ exp_ok ex).
+  { unfold take_exp in E3. destruct r2 as [|e t].
+    - injection E3 as <- <-. split; [reflexivity|left; reflexivity].
+    - destruct ((e =? 101) || (e =? 69)) eqn:He.
+      + destruct (take_sign t) as [es r4] eqn:E5. destruct (take_sign_spec _ _ _ E5) as (-> & Hes & _).
+        destruct (span digit r4) as [d3 r5] eqn:E6. destruct (span_spec _ _ _ _ E6) as (-> & Hd3 & _).
+        destruct d3 as [|c d3]; injection E3 as <- <-.
+        * split; [reflexivity|left; reflexivity].
+        * split; [cbn; rewrite <- app_assoc; reflexivity|]. right. exists e, es, (c :: d3).
+          repeat split; auto. discriminate.
+      + injection E3 as <- <-. split; [reflexivity|left; reflexivity]. }
+  destruct Hex as [-> Hex].
+  change (m0 :: m ++ ex) with ((m0 :: m) ++ ex). rewrite <- Em.
+  split.
+  - rewrite <- !app_assoc. reflexivity.
+  - exists sg, d1, frac, ex. split; [rewrite <- !app_assoc; reflexivity|].
+    constructor; auto. rewrite Em. discriminate.
+Qed.
+
+
+Theorem number_roundtrip repr k :
+  number_repr repr = true -> num_stop k = true ->
+  consume_number (repr ++ k) = Some (repr, k).
+Proof.
+  unfold number_repr. destruct (consume_number repr) as [[r k0]|] eqn:E; [|discriminate].
+  destruct k0; [|discriminate]. intros _ Hk.
+  destruct (consume_number_inv _ _ _ E) as (Hr & sg & d1 & frac & ex & -> & Hp).
+  rewrite app_nil_r in Hr. subst repr.
+  rewrite <- !app_assoc. apply consume_number_parts; auto.
+Qed.
+
+Lemma number_repr_head repr : number_repr repr = true ->
+  exists c r, repr = c :: r /\ (digit c = true \/ c = 43 \/ c = 45 \/ c = 46).
+Proof.
+  unfold number_repr. destruct (consume_number repr) as [[r k0]|] eqn:E; [|discriminate].
+  destruct k0; [|discriminate]. intros _.
+  destruct (consume_number_inv _ _ _ E) as (Hr & sg & d1 & frac & ex & -> & [Hsg Hd1 Hfrac Hex Hne]).
+  rewrite app_nil_r in Hr. subst repr.
+  destruct sg as [|c [|? ?]]; try discriminate.
+  - destruct d1 as [|c d1].
+    + destruct Hfrac as [->|(d2 & -> & _)]; [cbn in Hne; contradiction|]. cbn. eauto 10.
+    + cbn in Hd1. apply andb_true_iff in Hd1 as [Hc _]. cbn. eauto 10.
+  - cbn in Hsg. cbn. exists c. eexists. split; [reflexivity|]. unf. lia.
+Qed.
+
+(* ------------------------------------------------------------------ unicode ranges *)
+Lemma hex_fuel_irrel f : forall n acc, (1 <= f)%nat -> n < 16 ^ N.of_nat f ->
+  hex_upper_fuel (S f) n acc = hex_upper_fuel f n acc.
+Proof.
+  induction f as [|f IH]; intros n acc Hf Hn; [lia|].
+  cbn [hex_upper_fuel]. destruct (n / 16 =? 0) eqn:E; [reflexivity|].
+  destruct f as [|f'].
+  - exfalso. cbn in Hn. assert (n / 16 = 0) by (apply N.div_small; lia). lia.
+  - change (hex_upper_fuel (S (S f')) (n / 16) (hex_digit (n mod 16) :: acc))
+      with (hex_upper_fuel (S (S f')) (n / 16) (hex_digit (n mod 16) :: acc)).
+    rewrite <- (IH (n / 16) (hex_digit (n mod 16) :: acc)); [reflexivity|lia|].
+    apply N.div_lt_upper_bound; [lia|]. rewrite Nat2N.inj_succ, N.pow_succ_r' in Hn. lia.
+Qed.
+
+Lemma hex_upper_6 n : n < 16 ^ 6 ->
+  forallb hexdig (hex_upper n) = true /\ (1 <= length (hex_upper n) <= 6)%nat /\
+  hex_str_val (hex_upper n) = n.
+Proof.
+  intros H. unfold hex_upper.
+  rewrite (hex_fuel_irrel 7) by (cbn in *; lia).
+  rewrite (hex_fuel_irrel 6) by (cbn in *; lia).
+  destruct (hex_upper_fuel_spec 6 n [] H ltac:(lia)) as (h & E & A & B & C).
+  rewrite E, app_nil_r. auto.
+Qed.
+
+Lemma span_n_app p a : forall n b,
+  forallb p a = true -> (length a <= n)%nat -> (length a = n \/ head_sat p b = false) ->
+  span_n p n (a ++ b) = (a, b).
+Proof.
+  induction a as [|c a IH]; intros n b Ha Hl Hb.
+  - cbn [app]. destruct n; [reflexivity|]. destruct b as [|d b]; [reflexivity|].
+    destruct Hb as [Hb|Hb]; [cbn in Hb; lia|]. cbn in Hb |- *. rewrite Hb. reflexivity.
+  - cbn in Ha. apply andb_true_iff in Ha as [Hc Ha]. destruct n; [cbn in Hl; lia|].
+    cbn [app span_n]. rewrite Hc, IH; auto.
+    + cbn in Hl. lia.
+    + destruct Hb as [Hb|Hb]; [left; cbn in Hb; lia|right; exact Hb].
+Qed.
+
+
+Lemma consume_urange_single h k :
+  forallb hexdig h = true -> (1 <= length h <= 6)%nat -> ur_stop k = true ->
+  consume_urange (h ++ k) = (hex_str_val h, hex_str_val h, k).
+Proof.
+  intros Hh Hl Hk. unfold ur_stop in Hk.
+  apply andb_true_iff in Hk as [Hk Hk3]. apply andb_true_iff in Hk as [Hk1 Hk2].
+  apply negb_true_iff in Hk1, Hk2, Hk3.
+  unfold consume_urange. rewrite span_n_app; auto; [|lia].
+  assert (Eq : span_n (fun c => c =? 63) (6 - length h) k = ([], k)).
+  { destruct (6 - length h)%nat; [reflexivity|]. destruct k as [|c k]; [reflexivity|].
+    cbn in Hk2 |- *. rewrite Hk2. reflexivity. }
+  rewrite Eq. destruct k as [|m [|c r]]; try reflexivity.
+  cbn in Hk3. cbn in Hk3. destruct (m =? 45); cbn in Hk3 |- *; [rewrite Hk3|]; reflexivity.
+Qed.
+
+Lemma consume_urange_pair h h2 k :
+  forallb hexdig h = true -> (1 <= length h <= 6)%nat ->
+  forallb hexdig h2 = true -> (1 <= length h2 <= 6)%nat -> head_sat hexdig k = false ->
+  consume_urange (h ++ 45 :: h2 ++ k) = (hex_str_val h, hex_str_val h2, k).
+Proof.
+  intros Hh Hl Hh2 Hl2 Hk.
+  unfold consume_urange. rewrite span_n_app; auto; [|lia].
+  assert (Eq : span_n (fun c => c =? 63) (6 - length h) (45 :: h2 ++ k) = ([], 45 :: h2 ++ k)).
+  { destruct (6 - length h)%nat; reflexivity. }
+  rewrite Eq. destruct h2 as [|c h2]; [cbn in Hl2; lia|].
+  cbn [app]. cbn in Hh2. apply andb_true_iff in Hh2 as [Hc Hh2'].
+  change (45 =? 45) with true. rewrite Hc. cbn [andb].
+  change (c :: h2 ++ k) with ((c :: h2) ++ k).
+  rewrite span_n_app; auto.
+  - cbn. rewrite Hc, Hh2'. reflexivity.
+  - lia.
+Qed.
+
+(* ------------------------------------------------------------------ lengths (fuel bounds) *)
+Lemma flat_map_length_ge {A} (f : A -> list N) v :
+  (forall c, 1 <= length (f c))%nat -> (length v <= length (flat_map f v))%nat.
+Proof.
+  intros H. induction v as [|c v IH]; cbn; [lia|]. rewrite app_length. specialize (H c). lia.
+Qed.
+
+Lemma name_char_length c : (1 <= length (name_char c))%nat.
+Proof.
+  unfold name_char. repeat match goal with |- context [if ?b then _ else _] => destruct b end.
+  all: try (cbn [length]; lia). all: try (vm_compute; lia).
+Qed.
+
+Lemma serialize_name_length v : (length v <= length (serialize_name v))%nat.
+Proof. apply flat_map_length_ge, name_char_length. Qed.
+
+Lemma ident_first_char_length c : (1 <= length (ident_first_char c))%nat.
+Proof.
+  unfold ident_first_char. repeat match goal with |- context [if ?b then _ else _] => destruct b end.
+  all: try (cbn [length]; lia). all: try (vm_compute; lia).
+Qed.
+
+Lemma serialize_identifier_length v s : serialize_identifier v = Ok s -> (length v <= length s)%nat.
+Proof.
+  unfold serialize_identifier. destruct v as [|c r]; [discriminate|].
+  destruct (c =? 45).
+  - destruct r as [|d r']; [intros H; injection H as <-; cbn; lia|].
+    destruct (d =? 45).
+    + destruct r' as [|e r'']; intros H; injection H as <-; [cbn; lia|].
+      pose proof (serialize_name_length (e :: r'')). unfold serialize_name in *. cbn [length flat_map] in *. lia.
+    + intros H; injection H as <-. cbn [length]. rewrite app_length.
+      pose proof (serialize_name_length r'). pose proof (ident_first_char_length d). lia.
+  - intros H; injection H as <-. rewrite app_length. cbn [length].
+    pose proof (serialize_name_length r). pose proof (ident_first_char_length c). lia.
+Qed.
+
+Lemma string_char_length c : (1 <= length (string_char c))%nat.
+Proof.
+  unfold string_char. repeat match goal with |- context [if ?b then _ else _] => destruct b end.
+  all: try (cbn [length]; lia). all: try (vm_compute; lia).
+Qed.
+Lemma serialize_string_length v : (length v <= length (serialize_string_value v))%nat.
+Proof. apply flat_map_length_ge, string_char_length. Qed.
+
+Lemma url_char_length c : (1 <= length (url_char c))%nat.
+Proof.
+  unfold url_char. repeat match goal with |- context [if ?b then _ else _] => destruct b end.
+  all: try (cbn [length]; lia). all: try (vm_compute; lia).
+Qed.
+Lemma serialize_url_length v : (length v <= length (serialize_url v))%nat.
+Proof. apply flat_map_length_ge, url_char_length. Qed.
